@@ -444,9 +444,13 @@ class BinnedTrees(Iterable[AngularTree]):
                 If bin edges are provided but patch has not redshifts attached.
         """
         try:
-            assert not force
+            # no assert statements here: they are removed when running python
+            # with -O, which would make any cached trees pass as up to date
+            if force:
+                raise AssertionError("rebuild requested")
             new = cls(patch)  # trees exists, load the associated binning
-            assert new.binning_equal(binning)
+            if not new.binning_equal(binning):
+                raise AssertionError("cached trees use a different binning")
 
         except (AssertionError, FileNotFoundError):
             new = cls.__new__(cls)
